@@ -63,6 +63,15 @@ Definition ordering (op : cmpop) : bool :=
   match op with CEQ | CNE => false | _ => true end.
 
 Definition R := option (expr * ty).
+
+(* which math functions / Bessel kinds the analysis types "complex" whatever the operand:
+   pinned tree: only sqrt;  tree with fixes/C23-partial-mathfn.diff: sqrt, ln, acos, asin and every
+   Bessel function (handlers `ln = acos = asin = bessel_function = sqrt`) *)
+Definition cfn_of (fixm : bool) (f : mathfn) : bool :=
+  match f with FSqrt => true | FLn | FAcos | FAsin => fixm | _ => false end.
+Definition cbs_of (fixm : bool) (_ : bkind) : bool := fixm.
+
+
 (* default rule *)
 Definition d1 (f : expr -> expr) (ra : R) : R :=
   match ra with Some (a, ta) => Some (f a, join [ta]) | None => None end.
@@ -75,6 +84,12 @@ Definition d2 (f : expr -> expr -> expr) (ra rb : R) : R :=
    complex (MultiIndex of IndexSum / ComponentTensor, Label of Variable): always complex *)
 Definition dx (f : expr -> expr) (ra : R) : R :=
   match ra with Some (a, _) => Some (f a, TComplex) | None => None end.
+(* a two-operand node typed complex whatever the operands (Bessel functions on the fixed tree) *)
+Definition x2 (f : expr -> expr -> expr) (ra rb : R) : R :=
+  match ra, rb with
+  | Some (a, _), Some (b, _) => Some (f a b, TComplex)
+  | _, _ => None
+  end.
 (* real / imag / abs / sqrt: constant type *)
 Definition kc (t : ty) (f : expr -> expr) (ra : R) : R :=
   match ra with Some (a, _) => Some (f a, t) | None => None end.
@@ -87,34 +102,34 @@ Definition c2 (f : expr -> expr -> expr) (ra rb : R) : R :=
   | _, _ => None
   end.
 
-Fixpoint check (e : expr) : R :=
+Fixpoint check (cfn : mathfn -> bool) (cbs : bkind -> bool) (e : expr) {struct e} : R :=
   match e with
   | Zero _ _ | IntV _ | RealV _ _ | RatV _ _ => Some (e, TReal)
   | CplxV _ _ _ _ | Identity _ | PermSym _ => Some (e, TComplex)
   | Term k _ _ => Some (e, term_ty k)
-  | Sum a b => d2 Sum (check a) (check b)
-  | Product a b => d2 Product (check a) (check b)
-  | Division a b => d2 Division (check a) (check b)
+  | Sum a b => d2 Sum (check cfn cbs a) (check cfn cbs b)
+  | Product a b => d2 Product (check cfn cbs a) (check cfn cbs b)
+  | Division a b => d2 Division (check cfn cbs a) (check cfn cbs b)
   | Power a b =>
-      match check a, check b with
+      match check cfn cbs a, check cfn cbs b with
       | Some (a', ta), Some (b', _) =>
           Some (Power a' b', if is_real ta && int_valued b' then TReal else TComplex)
       | _, _ => None
       end
-  | Abs a => kc TReal Abs (check a)
-  | Conj a => d1 Conj (check a)
-  | Real a => kc TReal Real (check a)
-  | Imag a => kc TReal Imag (check a)
+  | Abs a => kc TReal Abs (check cfn cbs a)
+  | Conj a => d1 Conj (check cfn cbs a)
+  | Real a => kc TReal Real (check cfn cbs a)
+  | Imag a => kc TReal Imag (check cfn cbs a)
   | Indexed a mi =>
-      match check a with Some (a', ta) => Some (Indexed a' mi, ta) | None => None end
-  | IndexSum a i d => dx (fun x => IndexSum x i d) (check a)
-  | ComponentTensor a ix => dx (fun x => ComponentTensor x ix) (check a)
+      match check cfn cbs a with Some (a', ta) => Some (Indexed a' mi, ta) | None => None end
+  | IndexSum a i d => dx (fun x => IndexSum x i d) (check cfn cbs a)
+  | ComponentTensor a ix => dx (fun x => ComponentTensor x ix) (check cfn cbs a)
   | ListTensor es =>
       match (fix go (l : list expr) : option (list expr * list ty) :=
                match l with
                | [] => Some ([], [])
                | x :: t =>
-                   match check x, go t with
+                   match check cfn cbs x, go t with
                    | Some (x', tx), Some (l', ts) => Some (x' :: l', tx :: ts)
                    | _, _ => None
                    end
@@ -123,47 +138,43 @@ Fixpoint check (e : expr) : R :=
       | None => None
       end
   | Conditional c t f =>
-      match checkc c, check t, check f with
+      match checkc cfn cbs c, check cfn cbs t, check cfn cbs f with
       | Some (c', tyc), Some (t', tyt), Some (f', tyf) =>
           Some (Conditional c' t' f', join [tyc; tyt; tyf])
       | _, _, _ => None
       end
-  | MinV a b => c2 MinV (check a) (check b)
-  | MaxV a b => c2 MaxV (check a) (check b)
-  | Math f a =>
-      match f with
-      | FSqrt => kc TComplex (Math FSqrt) (check a)
-      | _ => d1 (Math f) (check a)
-      end
-  | Atan2 a b => d2 Atan2 (check a) (check b)
-  | Bessel k nu a => d2 (Bessel k) (check nu) (check a)
-  | Vari a l => dx (fun x => Vari x l) (check a)
-  | Restricted p a => d1 (Restricted p) (check a)
-  | Grad a g => d1 (fun x => Grad x g) (check a)
-  | RefGrad a g => d1 (fun x => RefGrad x g) (check a)
-  | Div a g => d1 (fun x => Div x g) (check a)
-  | NablaGrad a g => d1 (fun x => NablaGrad x g) (check a)
-  | NablaDiv a g => d1 (fun x => NablaDiv x g) (check a)
-  | Curl a => d1 Curl (check a)
-  | RefValue a sh => d1 (fun x => RefValue x sh) (check a)
-  | Transposed a => d1 Transposed (check a)
-  | Outer a b => d2 Outer (check a) (check b)
-  | Inner a b => d2 Inner (check a) (check b)
-  | Dot a b => d2 Dot (check a) (check b)
-  | Cross a b => d2 Cross (check a) (check b)
-  | Perp a => d1 Perp (check a)
-  | Trace a => d1 Trace (check a)
-  | Determinant a => d1 Determinant (check a)
-  | Inverse a => d1 Inverse (check a)
-  | Cofactor a => d1 Cofactor (check a)
-  | Deviatoric a => d1 Deviatoric (check a)
-  | Skew a => d1 Skew (check a)
-  | Sym a => d1 Sym (check a)
+  | MinV a b => c2 MinV (check cfn cbs a) (check cfn cbs b)
+  | MaxV a b => c2 MaxV (check cfn cbs a) (check cfn cbs b)
+  | Math f a => if cfn f then kc TComplex (Math f) (check cfn cbs a) else d1 (Math f) (check cfn cbs a)
+  | Atan2 a b => d2 Atan2 (check cfn cbs a) (check cfn cbs b)
+  | Bessel k nu a => if cbs k then x2 (Bessel k) (check cfn cbs nu) (check cfn cbs a) else d2 (Bessel k) (check cfn cbs nu) (check cfn cbs a)
+  | Vari a l => dx (fun x => Vari x l) (check cfn cbs a)
+  | Restricted p a => d1 (Restricted p) (check cfn cbs a)
+  | Grad a g => d1 (fun x => Grad x g) (check cfn cbs a)
+  | RefGrad a g => d1 (fun x => RefGrad x g) (check cfn cbs a)
+  | Div a g => d1 (fun x => Div x g) (check cfn cbs a)
+  | NablaGrad a g => d1 (fun x => NablaGrad x g) (check cfn cbs a)
+  | NablaDiv a g => d1 (fun x => NablaDiv x g) (check cfn cbs a)
+  | Curl a => d1 Curl (check cfn cbs a)
+  | RefValue a sh => d1 (fun x => RefValue x sh) (check cfn cbs a)
+  | Transposed a => d1 Transposed (check cfn cbs a)
+  | Outer a b => d2 Outer (check cfn cbs a) (check cfn cbs b)
+  | Inner a b => d2 Inner (check cfn cbs a) (check cfn cbs b)
+  | Dot a b => d2 Dot (check cfn cbs a) (check cfn cbs b)
+  | Cross a b => d2 Cross (check cfn cbs a) (check cfn cbs b)
+  | Perp a => d1 Perp (check cfn cbs a)
+  | Trace a => d1 Trace (check cfn cbs a)
+  | Determinant a => d1 Determinant (check cfn cbs a)
+  | Inverse a => d1 Inverse (check cfn cbs a)
+  | Cofactor a => d1 Cofactor (check cfn cbs a)
+  | Deviatoric a => d1 Deviatoric (check cfn cbs a)
+  | Skew a => d1 Skew (check cfn cbs a)
+  | Sym a => d1 Sym (check cfn cbs a)
   end
-with checkc (c : cond) : option (cond * ty) :=
+with checkc (cfn : mathfn -> bool) (cbs : bkind -> bool) (c : cond) {struct c} : option (cond * ty) :=
   match c with
   | Cmp op a b =>
-      match check a, check b with
+      match check cfn cbs a, check cfn cbs b with
       | Some (a', ta), Some (b', tb) =>
           if ordering op then
             if is_complex ta || is_complex tb then None
@@ -172,32 +183,39 @@ with checkc (c : cond) : option (cond * ty) :=
       | _, _ => None
       end
   | AndC a b =>
-      match checkc a, checkc b with
+      match checkc cfn cbs a, checkc cfn cbs b with
       | Some (a', ta), Some (b', tb) => Some (AndC a' b', join [ta; tb])
       | _, _ => None
       end
   | OrC a b =>
-      match checkc a, checkc b with
+      match checkc cfn cbs a, checkc cfn cbs b with
       | Some (a', ta), Some (b', tb) => Some (OrC a' b', join [ta; tb])
       | _, _ => None
       end
   | NotC a =>
-      match checkc a with Some (a', ta) => Some (NotC a', join [ta]) | None => None end
+      match checkc cfn cbs a with Some (a', ta) => Some (NotC a', join [ta]) | None => None end
   end.
 
-Fixpoint check_list (l : list expr) : option (list expr * list ty) :=
+Fixpoint check_list (cfn : mathfn -> bool) (cbs : bkind -> bool) (l : list expr) {struct l} : option (list expr * list ty) :=
   match l with
   | [] => Some ([], [])
   | x :: t =>
-      match check x, check_list t with
+      match check cfn cbs x, check_list cfn cbs t with
       | Some (x', tx), Some (l', ts) => Some (x' :: l', tx :: ts)
       | _, _ => None
       end
   end.
-Lemma check_ListTensor es :
-  check (ListTensor es) =
-  match check_list es with Some (es', ts) => Some (ListTensor es', join ts) | None => None end.
-Proof. reflexivity. Qed.
+Lemma check_ListTensor cfn cbs es :
+  check cfn cbs (ListTensor es) =
+  match check_list cfn cbs es with Some (es', ts) => Some (ListTensor es', join ts) | None => None end.
+Proof.
+  cbn [check].
+  match goal with |- match ?g es with _ => _ end = _ =>
+    assert (H : forall l, g l = check_list cfn cbs l) end.
+  { induction l as [|x l IH]; [reflexivity|]. cbn [check_list]. rewrite <- IH. reflexivity. }
+  rewrite H. reflexivity.
+Qed.
+
 
 (* ------------------------------------------------------------------------------------------ *)
 (* real mode: ComplexNodeRemoval *)
@@ -290,6 +308,7 @@ Inductive hrule :=
  | HCompare (marker wrap result : string)
  | HConst (t : string)
  | HPower (base_is yes no : string)
+ | HPowerLit (base_is yes no : string)   (* power converting only literal RealValue | Zero exponents *)
  | HTerminal (reals : list string) (yes no : string)
  | HIndexed
  | HChild                      (* ComplexNodeRemoval.conj / real : return the operand *)
@@ -298,7 +317,7 @@ Inductive hrule :=
  | HReuse.                     (* expr = MultiFunction.reuse_if_untouched *)
 
 Open Scope string_scope.
-Definition cc_rules : list (string * hrule) :=
+Definition cc_rules (fixp : bool) : list (string * hrule) :=
   [ ("expr", HDefault "complex" "complex" "real" "complex");
     ("compare", HCompare "complex" "Real" "bool");
     ("max_value", HCompare "complex" "Real" "bool");
@@ -306,12 +325,13 @@ Definition cc_rules : list (string * hrule) :=
     ("real", HConst "real");
     ("imag", HConst "real");
     ("sqrt", HConst "complex");
-    ("power", HPower "real" "real" "complex");
+    ("power", if fixp then HPowerLit "real" "real" "complex" else HPower "real" "real" "complex");
     ("abs", HConst "real");
     ("terminal", HTerminal ["RealValue"; "Zero"; "Argument"; "GeometricQuantity"] "real" "complex");
     ("indexed", HIndexed) ].
-Definition cc_aliases : list (string * string) :=
-  [ ("gt", "compare"); ("lt", "compare"); ("ge", "compare"); ("le", "compare"); ("sign", "compare") ].
+Definition cc_aliases (fixm : bool) : list (string * string) :=
+  [ ("gt", "compare"); ("lt", "compare"); ("ge", "compare"); ("le", "compare"); ("sign", "compare") ]
+  ++ (if fixm then [ ("ln", "sqrt"); ("acos", "sqrt"); ("asin", "sqrt"); ("bessel_function", "sqrt") ] else []).
 Definition rm_rules : list (string * hrule) :=
   [ ("expr", HReuse);
     ("conj", HChild);
@@ -320,7 +340,7 @@ Definition rm_rules : list (string * hrule) :=
     ("terminal", HTerminalRaise "ComplexValue" "ValueError") ].
 
 (* which handler the live MultiFunction instance dispatches every modelled node class to *)
-Definition cc_dispatch : list (string * string) :=
+Definition cc_dispatch0 : list (string * string) :=
   [ ("Zero", "terminal"); ("IntValue", "terminal"); ("FloatValue", "terminal");
     ("ComplexValue", "terminal"); ("Identity", "terminal"); ("PermutationSymbol", "terminal");
     ("Coefficient", "terminal"); ("Argument", "terminal"); ("Constant", "terminal");
@@ -342,6 +362,13 @@ Definition cc_dispatch : list (string * string) :=
     ("Transposed", "expr"); ("Outer", "expr"); ("Inner", "expr"); ("Dot", "expr"); ("Cross", "expr");
     ("Perp", "expr"); ("Trace", "expr"); ("Determinant", "expr"); ("Inverse", "expr");
     ("Cofactor", "expr"); ("Deviatoric", "expr"); ("Skew", "expr"); ("Sym", "expr") ].
+Definition cc_dispatch (fixm : bool) : list (string * string) :=
+  map (fun p : string * string =>
+         let (c, h) := p in
+         (c, if fixm && (String.eqb c "Ln" || String.eqb c "Acos" || String.eqb c "Asin" || String.eqb c "BesselJ"
+                         || String.eqb c "BesselY" || String.eqb c "BesselI" || String.eqb c "BesselK")
+             then "sqrt" else h))
+      cc_dispatch0.
 Definition rm_dispatch : list (string * string) :=
   map (fun p : string * string =>
          let (c, h) := p in
@@ -349,7 +376,7 @@ Definition rm_dispatch : list (string * string) :=
              else if String.eqb c "Real" then "real"
              else if String.eqb c "Imag" then "imag"
              else if String.eqb h "terminal" then "terminal" else "expr"))
-      cc_dispatch.
+      cc_dispatch0.
 Close Scope string_scope.
 
 (* ------------------------------------------------------------------------------------------ *)
@@ -379,11 +406,11 @@ Fixpoint sites_list (l : list expr) : list (expr * expr) :=
 Lemma sites_ListTensor es : sites (ListTensor es) = sites_list es.
 Proof. reflexivity. Qed.
 
-Definition ty_of (e : expr) : option ty :=
-  match check e with Some (_, t) => Some t | None => None end.
+Definition ty_of (cfn : mathfn -> bool) (cbs : bkind -> bool) (e : expr) : option ty :=
+  match check cfn cbs e with Some (_, t) => Some t | None => None end.
 (* a site with an operand the analysis types "complex" (or cannot type at all) *)
-Definition bad_site (p : expr * expr) : bool :=
-  match ty_of (fst p), ty_of (snd p) with
+Definition bad_site (cfn : mathfn -> bool) (cbs : bkind -> bool) (p : expr * expr) : bool :=
+  match ty_of cfn cbs (fst p), ty_of cfn cbs (snd p) with
   | Some ta, Some tb => is_complex ta || is_complex tb
   | _, _ => true
   end.
